@@ -40,9 +40,20 @@ impl ElfSectionsTag {
     /// Get an iterator over the ELF sections.
     #[must_use]
     pub const fn sections(&self) -> ElfSectionIter {
-        let string_section_offset = (self.shndx * self.entry_size) as isize;
+        // All section headers, including the one of the string table, must be
+        // located inside the tag.
+        let headers_len = self.number_of_sections as u64 * self.entry_size as u64;
+        assert!(
+            headers_len <= self.sections.len() as u64,
+            "The section headers must fit into the tag. The MBI seems to be corrupt."
+        );
+        assert!(
+            self.shndx == 0 || self.shndx < self.number_of_sections,
+            "The string table index must refer to a section of the tag. The MBI seems to be corrupt."
+        );
+        let string_section_offset = self.shndx as usize * self.entry_size as usize;
         let string_section_ptr =
-            unsafe { self.sections.as_ptr().offset(string_section_offset) as *const _ };
+            unsafe { self.sections.as_ptr().add(string_section_offset) as *const _ };
         ElfSectionIter {
             current_section: self.sections.as_ptr(),
             remaining_sections: self.number_of_sections,
